@@ -84,6 +84,12 @@ def cases(tier, seed):
             case["barefields"] = h % 2 == 0
         if h % 6 == 5:
             case["shared_file"] = True
+        if h % 5 == 2 and "bits_in" not in case:
+            # float64 columns holding quarters (not for the 'count' aggregate, whose result is a number of records)
+            case["scale"] = 4
+            case["aggs"] = [a if a != "count" else "sum" for a in case["aggs"]]
+        if h % 4 == 2 and ncols >= 2 and "via" not in case:
+            case["partial_dtypes"] = True
         if h % 8 == 6 and "via" not in case and "nested" not in case:
             case["reuse_dtypes"] = True
             case["inputs"] = [[[p[0], p[1]] + [v + 200 for v in p[2:]] for p in px] for px in case["inputs"]]   # beyond int8
